@@ -25,14 +25,18 @@ import (
 // that no longer apply to the current tree are skipped and counted.
 
 type variant struct {
-	ID    string
-	Patch string
-	Props []string
-	Desc  string
-	Kind  string // variant | seeded
+	ID     string
+	Patch  string
+	Props  []string
+	Desc   string
+	Kind   string // variant | seeded | benign
+	Benign bool   // behaviour-preserving edit: the rule set must stay silent
 }
 
 type selfTestResult struct {
+	BenignApplied int      `json:"benign_applied"`
+	BenignQuiet   int      `json:"benign_quiet"`
+	FalseAlarms   []string `json:"false_alarms_on_benign_edits"`
 	Applied  int      `json:"applied"`
 	Detected int      `json:"detected"`
 	Skipped  int      `json:"skipped_patch_does_not_apply"`
@@ -54,6 +58,7 @@ func loadVariants(verif string) []variant {
 		if json.Unmarshal(b, &idx) == nil {
 			for _, e := range idx {
 				if e.Expect == "none" {
+					out = append(out, variant{ID: e.ID, Patch: filepath.Join(verif, "variants", e.ID+".diff"), Props: []string{"*"}, Desc: e.Description, Kind: "benign", Benign: true})
 					continue
 				}
 				out = append(out, variant{ID: e.ID, Patch: filepath.Join(verif, "variants", e.ID+".diff"), Props: []string{e.Property}, Desc: e.Description, Kind: "variant"})
@@ -130,7 +135,7 @@ func runSelfTest(prop, repo, verif string) selfTestResult {
 	var todo []variant
 	for _, v := range loadVariants(verif) {
 		for _, p := range v.Props {
-			if p == prop {
+			if p == prop || p == "*" {
 				todo = append(todo, v)
 			}
 		}
@@ -140,6 +145,7 @@ func runSelfTest(prop, repo, verif string) selfTestResult {
 		status  string // detected | missed | skipped | broken
 		detail  string
 	}
+	known := loadKnown(filepath.Join(verif, "known_findings.json"))
 	outs := make([]outcome, len(todo))
 	sem := make(chan struct{}, 6)
 	var wg sync.WaitGroup
@@ -182,8 +188,20 @@ func runSelfTest(prop, repo, verif string) selfTestResult {
 			var fails []string
 			for _, ob := range c.Obs {
 				if !ob.OK {
+					if v.Benign && isKnown(known, prop, ob) {
+						continue
+					}
 					fails = append(fails, ob.Rule+" "+ob.Key)
 				}
+			}
+			if v.Benign {
+				if len(fails) == 0 {
+					o.status = "quiet"
+				} else {
+					o.status = "falsealarm"
+					o.detail = strings.Join(fails, "; ")
+				}
+				return
 			}
 			if len(fails) > 0 {
 				o.status = "detected"
@@ -197,8 +215,6 @@ func runSelfTest(prop, repo, verif string) selfTestResult {
 		}(i, v)
 	}
 	wg.Wait()
-	known := loadKnown(filepath.Join(verif, "known_findings.json"))
-	_ = known
 	for _, o := range outs {
 		switch o.status {
 		case "detected":
@@ -207,6 +223,12 @@ func runSelfTest(prop, repo, verif string) selfTestResult {
 		case "missed":
 			res.Applied++
 			res.Missed = append(res.Missed, o.v.ID)
+		case "quiet":
+			res.BenignApplied++
+			res.BenignQuiet++
+		case "falsealarm":
+			res.BenignApplied++
+			res.FalseAlarms = append(res.FalseAlarms, o.v.ID+": "+o.detail)
 		case "skipped":
 			res.Skipped++
 		case "broken":
@@ -222,4 +244,13 @@ func firstLine(s string) string {
 		return s[:i]
 	}
 	return s
+}
+
+func isKnown(known []knownEntry, prop string, ob *rules.Obligation) bool {
+	for _, k := range known {
+		if k.Status == "known" && k.Property == prop && k.Rule == ob.Rule && k.Key == ob.Key {
+			return true
+		}
+	}
+	return false
 }
